@@ -103,9 +103,50 @@ def outside_fk_domain(case):
     return bad(case["t"])
 
 
+SK_WORDS = ["id", "title", "name", "body", "k", "x", "y", "z", "a", "b", "c", "d"]
+LONG = "release notes for version 2: " + "lorem ipsum dolor sit amet " * 3
+SKEW_FORCED = [
+    ({"settings": {"id": 7, "title": "release notes"}}, {"settings": {"name": "release notes", "body": LONG}}, {}),
+    ({"k": {"a": 1, "b": "y" * 20}}, {"k": {"c": "y" * 20, "d": "y" * 10 + "z" * 60}}, {}),
+    ({"k": {"a": 1, "b": "y" * 20}, "n": 1}, {"k": {"c": "y" * 20, "d": "y" * 10 + "z" * 60}, "n": 1}, {"auto_match_keys": False}),
+]
+
+
+def gen_skewed(r):
+    """A mapping under an unchanged key whose own keys were renamed and where one value dwarfs the others: the inner
+    comparison starts with an upper bound far above the cost of replacing the whole pair."""
+    nf, nt = r.randint(2, 3), r.randint(2, 3)
+    fk = r.sample(SK_WORDS, nf)
+    rest = [w for w in SK_WORDS if w not in fk]
+    tk = r.sample(rest, nt) if r.random() < 0.7 else r.sample(rest, nt - 1) + [r.choice(fk)]
+    small = lambda: r.choice([1, 7, 12, "ab", "abc", "y" * r.randint(1, 20), True, None])
+    long_ = r.choice(["y", "z", "ab"]) * r.randint(10, 40) + r.choice(["", "q" * r.randint(5, 30)])
+    f = {k: small() for k in fk}
+    t = {k: small() for k in tk}
+    if r.random() < 0.8:
+        t[r.choice(tk)] = long_
+    else:
+        f[r.choice(fk)] = long_
+    if r.random() < 0.6:                       # a value that merely moved to a renamed key
+        t[r.choice(tk)] = f[r.choice(fk)]
+    outer = r.choice(["k", "settings"])
+    fd, td = {outer: f}, {outer: t}
+    if r.random() < 0.4:
+        fd["n"] = td["n"] = 1
+    if r.random() < 0.2:
+        fd, td = [fd, 1], [td, 1]
+    return fd, td
+
+
 def gen(rng, tier):
     n = 900 if tier == "quick" else 60000
     cases = []
+    for i, (f, t, o) in enumerate(SKEW_FORCED):
+        for m in MODES:
+            cases.append({"f": f, "t": t, "opts": o, "mode": m, "quiet": i % 2 == 0})
+    for i in range(40 if tier == "quick" else n // 20):
+        f, t = gen_skewed(rng)
+        cases.append({"f": f, "t": t, "opts": rng.choice(S.OPT_SETS), "mode": rng.choice(MODES), "quiet": rng.random() < 0.6})
     for i, (f, t) in enumerate(COLLUB_FORCED):
         cases.append({"f": f, "t": t, "opts": COLLUB_OPTS, "mode": MODES[i % len(MODES)], "quiet": True})
     for i, (f, t) in enumerate(S.FORCED):
